@@ -19,7 +19,7 @@ def main():
     if errors:
         run.violation("table translator failed closed: " + "; ".join(errors), dict(kind="translator", errors=errors), False)
         return run.finish()
-    ok, log = run.build(["Proofs/C03/Values.vo", "Model/StyleSpecCases.vo"], clean=(run.tier == "thorough"))
+    ok, log = run.build(["Proofs/C03/FontSize.vo", "Model/StyleSpecCases.vo"], clean=(run.tier == "thorough"))
     proofs_ok = ok and run.theorems()
     if not ok: run.proof_log = log[-2500:]
     run.witnesses()
